@@ -1,7 +1,45 @@
 package hapsim
 
-import rt "github.com/jcmoraisjr/haproxy-ingress/zzsimrt"
+// Parser for what `haproxy -f <cfgdir>` loads: every *.cfg in the directory plus
+// every map, list, crt-list, userlist and certificate file they reference, the
+// loadability analysis (C07), and the behavioural normal form NF used to
+// compare configurations.
 
+import (
+	"crypto/sha1"
+	"encoding/hex"
+	"fmt"
+	"path/filepath"
+	"regexp"
+	"sort"
+	"strconv"
+	"strings"
+
+	rt "github.com/jcmoraisjr/haproxy-ingress/zzsimrt"
+)
+
+// HALine is one directive.
+type HALine struct {
+	Raw string
+	Tok []string
+}
+
+// HASection is one configuration section.
+type HASection struct {
+	Kind  string // global defaults frontend backend listen userlist resolvers ...
+	Name  string
+	File  string
+	Lines []HALine
+}
+
+func (s *HASection) ID() string {
+	if s.Name == "" {
+		return s.Kind
+	}
+	return s.Kind + " " + s.Name
+}
+
+// HAServer is a parsed `server` line.
 type HAServer struct {
 	Name     string
 	Addr     string
@@ -9,18 +47,830 @@ type HAServer struct {
 	Weight   int
 	Disabled bool
 	Cookie   string
+	ID       string
+	Rest     []string // the remaining options, in order
+	Template bool
 }
+
+func (s *HAServer) IsEmptySlot() bool { return s.Disabled && s.Addr == "127.0.0.1" && s.Port == 1023 }
+
+// HABackend is a backend (or listen) section with its servers.
 type HABackend struct {
 	Name    string
+	Section *HASection
 	Servers []*HAServer
 }
+
+// HAConfig is a loaded configuration: sections plus a snapshot of every file
+// they reference (HAProxy reads those at load time only).
 type HAConfig struct {
+	Dir       string
+	Prefix    string
+	Sections  []*HASection
+	ByID      map[string]*HASection
 	Backends  map[string]*HABackend
-	CertFiles map[string][]byte
+	Files     map[string][]string // referenced text files: path -> data lines (comments stripped)
+	CertFiles map[string][]byte   // referenced certificate bundles (crt-list entries and `crt` arguments)
+	BinFiles  map[string]string   // other referenced files (ca-file, crl-file): path -> content hash
+	Fatal     []string            // HAProxy would refuse to load
+	Dangling  []string            // loads, but a reference resolves to nothing (C07 witnesses)
 }
 
 func (c *HAConfig) BackendNames() []string { return sortedKeys(c.Backends) }
 
+var sectionKeywords = map[string]bool{
+	"global": true, "defaults": true, "frontend": true, "backend": true, "listen": true, "userlist": true,
+	"resolvers": true, "peers": true, "mailers": true, "cache": true, "program": true, "ring": true,
+	"http-errors": true, "fcgi-app": true,
+}
+
+// tokenize splits a configuration line the way HAProxy does: blanks separate
+// words, single and double quotes group, backslash escapes, `#` starts a comment.
+func tokenize(line string) []string {
+	var toks []string
+	var cur strings.Builder
+	in := false
+	var quote byte
+	for i := 0; i < len(line); i++ {
+		ch := line[i]
+		switch {
+		case quote != 0:
+			if ch == quote {
+				quote = 0
+			} else if ch == '\\' && quote == '"' && i+1 < len(line) {
+				i++
+				cur.WriteByte(line[i])
+			} else {
+				cur.WriteByte(ch)
+			}
+		case ch == '\\' && i+1 < len(line):
+			i++
+			cur.WriteByte(line[i])
+			in = true
+		case ch == '\'' || ch == '"':
+			quote = ch
+			in = true
+		case ch == '#':
+			if in {
+				toks = append(toks, cur.String())
+			}
+			return toks
+		case ch == ' ' || ch == '\t' || ch == '\r':
+			if in {
+				toks = append(toks, cur.String())
+				cur.Reset()
+				in = false
+			}
+		default:
+			cur.WriteByte(ch)
+			in = true
+		}
+	}
+	if in {
+		toks = append(toks, cur.String())
+	}
+	return toks
+}
+
+func dataLines(data []byte) []string {
+	var out []string
+	for _, l := range strings.Split(string(data), "\n") {
+		t := strings.TrimSpace(l)
+		if t == "" || strings.HasPrefix(t, "#") {
+			continue
+		}
+		out = append(out, t)
+	}
+	return out
+}
+
+var (
+	reMapCall  = regexp.MustCompile(`map(?:_[a-z]+)?\(([^,)]+)`)
+	rePathID   = regexp.MustCompile(`^path[0-9]+$`)
+	reHTTPAuth = regexp.MustCompile(`http_auth(?:_group)?\(([^)]+)\)`)
+)
+
+// LoadConfig parses the configuration directory as HAProxy would load it.
+// It returns nil when there is no main configuration file at all.
 func LoadConfig(d *rt.Disk, dir string) (*HAConfig, []string) {
-	return &HAConfig{Backends: map[string]*HABackend{}, CertFiles: map[string][]byte{}}, nil
+	c := parseConfigDir(d, dir)
+	if c == nil {
+		return nil, []string{"no *.cfg file in " + dir}
+	}
+	return c, c.Fatal
+}
+
+func parseConfigDir(d *rt.Disk, dir string) *HAConfig {
+	var files []string
+	for _, p := range d.List(dir + "/") {
+		if filepath.Dir(p) == dir && strings.HasSuffix(p, ".cfg") {
+			files = append(files, p)
+		}
+	}
+	if len(files) == 0 {
+		return nil
+	}
+	sort.Strings(files)
+	prefix := strings.TrimSuffix(dir, "/etc/haproxy")
+	c := &HAConfig{Dir: dir, Prefix: prefix, ByID: map[string]*HASection{}, Backends: map[string]*HABackend{},
+		Files: map[string][]string{}, CertFiles: map[string][]byte{}, BinFiles: map[string]string{}}
+	for _, f := range files {
+		data, _ := d.Get(f)
+		var cur *HASection
+		for _, raw := range strings.Split(string(data), "\n") {
+			tok := tokenize(raw)
+			if len(tok) == 0 {
+				continue
+			}
+			indented := raw[0] == ' ' || raw[0] == '\t'
+			if !indented && sectionKeywords[tok[0]] {
+				cur = &HASection{Kind: tok[0], File: f}
+				if len(tok) > 1 {
+					cur.Name = tok[1]
+				}
+				c.Sections = append(c.Sections, cur)
+				if cur.Kind == "global" || cur.Kind == "defaults" {
+					// may legitimately repeat (main file + shards)
+					if c.ByID[cur.ID()] == nil {
+						c.ByID[cur.ID()] = cur
+					}
+					continue
+				}
+				if prev := c.ByID[cur.ID()]; prev != nil {
+					c.Fatal = append(c.Fatal, fmt.Sprintf("duplicated section '%s' (%s and %s)", cur.ID(), filepath.Base(prev.File), filepath.Base(f)))
+				} else {
+					c.ByID[cur.ID()] = cur
+				}
+				continue
+			}
+			if cur == nil {
+				c.Fatal = append(c.Fatal, fmt.Sprintf("%s: directive outside any section: %s", filepath.Base(f), strings.TrimSpace(raw)))
+				continue
+			}
+			cur.Lines = append(cur.Lines, HALine{Raw: strings.TrimSpace(raw), Tok: tok})
+		}
+		if len(data) > 0 && !strings.HasSuffix(string(data), "\n") {
+			c.Fatal = append(c.Fatal, fmt.Sprintf("%s: missing LF on last line (truncated file)", filepath.Base(f)))
+		}
+	}
+	c.analyse(d)
+	return c
+}
+
+func (c *HAConfig) hasProxy(name string) bool {
+	return c.ByID["backend "+name] != nil || c.ByID["listen "+name] != nil
+}
+
+func (c *HAConfig) readTextFile(d *rt.Disk, path, why string) bool {
+	if _, ok := c.Files[path]; ok {
+		return true
+	}
+	data, ok := d.Get(path)
+	if !ok {
+		c.Fatal = append(c.Fatal, fmt.Sprintf("%s: file not found: %s", why, strings.TrimPrefix(path, c.Prefix)))
+		return false
+	}
+	c.Files[path] = dataLines(data)
+	return true
+}
+
+func (c *HAConfig) readCert(d *rt.Disk, path, why string) {
+	if _, ok := c.CertFiles[path]; ok {
+		return
+	}
+	data, ok := d.Get(path)
+	if !ok {
+		c.Fatal = append(c.Fatal, fmt.Sprintf("%s: certificate file not found: %s", why, strings.TrimPrefix(path, c.Prefix)))
+		return
+	}
+	if !validPEMPair(data) {
+		c.Fatal = append(c.Fatal, fmt.Sprintf("%s: unable to load certificate: %s", why, strings.TrimPrefix(path, c.Prefix)))
+	}
+	c.CertFiles[path] = data
+}
+
+func (c *HAConfig) readBin(d *rt.Disk, path, why string) {
+	if _, ok := c.BinFiles[path]; ok {
+		return
+	}
+	data, ok := d.Get(path)
+	if !ok {
+		c.Fatal = append(c.Fatal, fmt.Sprintf("%s: file not found: %s", why, strings.TrimPrefix(path, c.Prefix)))
+		return
+	}
+	h := sha1.Sum(data)
+	c.BinFiles[path] = hex.EncodeToString(h[:8])
+}
+
+func parseServer(tok []string) *HAServer {
+	s := &HAServer{Name: tok[1], Weight: 1}
+	if tok[0] == "server-template" {
+		// server-template <prefix> <num> <fqdn>[:port] ...
+		s.Template = true
+		if len(tok) > 3 {
+			s.Addr = tok[3]
+			s.Rest = append(s.Rest, tok[2])
+			tok = tok[1:]
+		}
+	} else if len(tok) > 2 {
+		addr := tok[2]
+		if i := strings.LastIndexByte(addr, ':'); i > 0 && !strings.Contains(addr, "/") {
+			s.Addr = addr[:i]
+			s.Port, _ = strconv.Atoi(addr[i+1:])
+		} else {
+			s.Addr = addr
+		}
+	}
+	for i := 3; i < len(tok); i++ {
+		switch tok[i] {
+		case "disabled":
+			s.Disabled = true
+		case "weight":
+			if i+1 < len(tok) {
+				s.Weight, _ = strconv.Atoi(tok[i+1])
+				i++
+			}
+		case "cookie":
+			if i+1 < len(tok) {
+				s.Cookie = tok[i+1]
+				i++
+			}
+		case "id":
+			if i+1 < len(tok) {
+				s.ID = tok[i+1]
+				i++
+			}
+		default:
+			s.Rest = append(s.Rest, tok[i])
+		}
+	}
+	return s
+}
+
+// analyse resolves references and records what HAProxy would refuse (Fatal)
+// and what resolves to nothing at run time (Dangling).
+func (c *HAConfig) analyse(d *rt.Disk) {
+	binds := map[string]string{}
+	for _, s := range c.Sections {
+		isProxy := s.Kind == "backend" || s.Kind == "listen" || s.Kind == "frontend"
+		var be *HABackend
+		if (s.Kind == "backend" || s.Kind == "listen") && c.ByID[s.ID()] == s {
+			be = &HABackend{Name: s.Name, Section: s}
+			c.Backends[s.Name] = be
+		}
+		srvNames := map[string]bool{}
+		srvIDs := map[string]bool{}
+		for _, l := range s.Lines {
+			t := l.Tok
+			why := s.ID()
+			switch t[0] {
+			case "server", "server-template":
+				if len(t) < 3 {
+					c.Fatal = append(c.Fatal, why+": malformed server line: "+l.Raw)
+					continue
+				}
+				sv := parseServer(t)
+				if srvNames[sv.Name] {
+					c.Fatal = append(c.Fatal, fmt.Sprintf("%s: duplicated server name '%s'", why, sv.Name))
+				}
+				srvNames[sv.Name] = true
+				if sv.ID != "" {
+					if srvIDs[sv.ID] {
+						c.Fatal = append(c.Fatal, fmt.Sprintf("%s: duplicated server id %s", why, sv.ID))
+					}
+					srvIDs[sv.ID] = true
+				}
+				if be != nil {
+					be.Servers = append(be.Servers, sv)
+				}
+				for i, w := range t {
+					if (w == "ca-file" || w == "crl-file") && i+1 < len(t) {
+						c.readBin(d, t[i+1], why)
+					}
+					if w == "crt" && i+1 < len(t) {
+						c.readCert(d, t[i+1], why)
+					}
+				}
+			case "use_backend":
+				if len(t) > 1 && !strings.Contains(t[1], "%[") && !c.hasProxy(t[1]) {
+					c.Fatal = append(c.Fatal, fmt.Sprintf("%s: use_backend: unable to find required backend '%s'", why, t[1]))
+				}
+			case "default_backend":
+				if len(t) > 1 && !c.hasProxy(t[1]) {
+					c.Fatal = append(c.Fatal, fmt.Sprintf("%s: default_backend: unable to find required backend '%s'", why, t[1]))
+				}
+			case "use-server":
+				// checked below once all servers are known
+			case "bind":
+				if len(t) > 1 && isProxy {
+					addr := t[1]
+					if !strings.HasPrefix(addr, "unix@") {
+						if prev, dup := binds[addr]; dup {
+							c.Fatal = append(c.Fatal, fmt.Sprintf("%s: bind address %s already used by %s", why, addr, prev))
+						}
+						binds[addr] = why
+					}
+					for i, w := range t {
+						if w == "crt-list" && i+1 < len(t) {
+							if c.readTextFile(d, t[i+1], why) {
+								for _, cl := range c.Files[t[i+1]] {
+									f := strings.Fields(cl)
+									c.readCert(d, f[0], why+" crt-list")
+									for j, w2 := range f {
+										w2 = strings.TrimPrefix(w2, "[")
+										if (w2 == "ca-file" || w2 == "crl-file") && j+1 < len(f) {
+											c.readBin(d, strings.TrimSuffix(f[j+1], "]"), why+" crt-list")
+										}
+									}
+								}
+							}
+						}
+						if w == "crt" && i+1 < len(t) {
+							c.readCert(d, t[i+1], why)
+						}
+						if (w == "ca-file" || w == "crl-file") && i+1 < len(t) {
+							c.readBin(d, t[i+1], why)
+						}
+					}
+				}
+			}
+			// references found anywhere on the line
+			for _, m := range reMapCall.FindAllStringSubmatch(l.Raw, -1) {
+				c.readTextFile(d, m[1], why)
+			}
+			for i, w := range t {
+				if w == "-f" && i+1 < len(t) && strings.HasPrefix(t[i+1], "/") {
+					c.readTextFile(d, t[i+1], why)
+				}
+			}
+			for _, m := range reHTTPAuth.FindAllStringSubmatch(l.Raw, -1) {
+				if c.ByID["userlist "+m[1]] == nil {
+					c.Fatal = append(c.Fatal, fmt.Sprintf("%s: unable to find userlist '%s' referenced in arg 1 of ACL keyword 'http_auth'", why, m[1]))
+				}
+			}
+		}
+		if be != nil {
+			for _, l := range s.Lines {
+				if l.Tok[0] == "use-server" && len(l.Tok) > 1 && !srvNames[l.Tok[1]] {
+					c.Fatal = append(c.Fatal, fmt.Sprintf("%s: use-server: unable to find server '%s'", s.ID(), l.Tok[1]))
+				}
+			}
+		}
+	}
+	// second pass: values of backend-selecting maps, path ids
+	for _, s := range c.Sections {
+		if s.Kind != "backend" && s.Kind != "listen" && s.Kind != "frontend" {
+			continue
+		}
+		known := map[string]bool{}
+		var used []string
+		for _, l := range s.Lines {
+			// set-var(<var>) ...,map_x(file) : which variable receives the lookup
+			if v, file := setVarMap(l); v != "" {
+				switch v {
+				case "req.backend", "req.hostbackend", "req.defaultbackend", "req.snibackend", "req.tcpback", "req.sslpassback":
+					for _, ml := range c.Files[file] {
+						f := strings.Fields(ml)
+						if len(f) >= 2 && !c.hasProxy(f[1]) {
+							c.Dangling = append(c.Dangling, fmt.Sprintf("%s: map %s: value '%s' (key %s) names no backend", s.ID(), filepath.Base(file), f[1], f[0]))
+						}
+					}
+				case "txn.pathID":
+					for _, ml := range c.Files[file] {
+						f := strings.Fields(ml)
+						if len(f) >= 2 {
+							known[f[1]] = true
+						}
+					}
+				}
+			}
+			for _, w := range l.Tok {
+				if rePathID.MatchString(w) {
+					used = append(used, w)
+				}
+			}
+		}
+		for _, id := range used {
+			if !known[id] {
+				c.Dangling = append(c.Dangling, fmt.Sprintf("%s: path id %s is used in a rule but no path map yields it", s.ID(), id))
+			}
+		}
+	}
+}
+
+var reSetVar = regexp.MustCompile(`set-var\(([^)]+)\)`)
+
+// setVarMap returns (variable, map file) for `... set-var(v) <sample>,map_x(file...)`.
+func setVarMap(l HALine) (string, string) {
+	m := reSetVar.FindStringSubmatch(l.Raw)
+	if m == nil {
+		return "", ""
+	}
+	fm := reMapCall.FindStringSubmatch(l.Raw)
+	if fm == nil {
+		return "", ""
+	}
+	return m[1], fm[1]
+}
+
+// ---------------------------------------------------------------------------
+// Normal form
+
+// NF is the behavioural normal form: section id -> normalised lines, with
+// referenced files inlined by content and internal labels removed.
+type NF map[string][]string
+
+// NFOptions selects runtime overrides (effective state of a running HAProxy).
+type NFOptions struct {
+	// Servers overrides the server state per backend (runtime view).
+	Servers map[string]map[string]*SrvState
+	// Certs overrides the certificate content per file (runtime view).
+	Certs map[string][]byte
+	// RuntimeView: compare what a running HAProxy does: disabled servers are
+	// dropped whatever their address, a drained server is a weight-0 server,
+	// server cookies are kept only when the backend preserves them.
+	RuntimeView bool
+}
+
+func (c *HAConfig) strip(s string) string {
+	if c.Prefix == "" {
+		return s
+	}
+	return strings.ReplaceAll(s, c.Prefix, "")
+}
+
+func (c *HAConfig) certID(path string, opt *NFOptions) string {
+	var data []byte
+	if opt != nil && opt.Certs != nil {
+		if d, ok := opt.Certs[path]; ok {
+			data = d
+		}
+	}
+	if data == nil {
+		data = c.CertFiles[path]
+	}
+	if data == nil {
+		return "cert:missing"
+	}
+	if id := certIdentity(data); id != "" {
+		if strings.HasPrefix(id, "Kubernetes Ingress Controller Fake Certificate#") {
+			// every controller instance generates its own self-signed default
+			return "cert:fake-default"
+		}
+		return "cert:" + id
+	}
+	h := sha1.Sum(data)
+	return "cert:raw-" + hex.EncodeToString(h[:6])
+}
+
+// pathIDKeys maps the path ids of a backend section to the sorted keys that
+// yield them in its idpath maps.
+func (c *HAConfig) pathIDKeys(s *HASection) map[string]string {
+	keys := map[string][]string{}
+	for _, l := range s.Lines {
+		if v, file := setVarMap(l); v == "txn.pathID" {
+			method := "map"
+			if m := regexp.MustCompile(`map_([a-z]+)\(`).FindStringSubmatch(l.Raw); m != nil {
+				method = m[1]
+			}
+			for _, ml := range c.Files[file] {
+				f := strings.Fields(ml)
+				if len(f) >= 2 {
+					keys[f[1]] = append(keys[f[1]], method+":"+f[0])
+				}
+			}
+		}
+	}
+	out := map[string]string{}
+	for id, ks := range keys {
+		sort.Strings(ks)
+		out[id] = "<" + strings.Join(ks, "|") + ">"
+	}
+	return out
+}
+
+var reAuthName = regexp.MustCompile(`_auth_[0-9]+`)
+
+// NormalForm computes NF. The rules (each is an assumption listed in the
+// evidence): file names disappear (content inlined); the file-system prefix is
+// stripped; certificate files are replaced by the identity of the key pair;
+// server slot names, disabled 127.0.0.1:1023 slots and server order are removed
+// (a cookie equal to the slot name is removed with it); use-server names are
+// replaced by the server's address; path ids are replaced by the map keys that
+// yield them; auth-proxy backends/ports/socket ids are renamed after the
+// backend they front.
+func (c *HAConfig) NormalForm(opt *NFOptions) NF {
+	nf := NF{}
+	// auth proxy renaming: _auth_<port> -> _auth{<target>}
+	authName := map[string]string{}
+	if fs := c.authProxyFrontend(); fs != nil {
+		idToPort := map[string]string{}
+		var onlyPort string
+		for _, l := range fs.Lines {
+			if l.Tok[0] == "bind" && len(l.Tok) > 1 {
+				port := l.Tok[1][strings.LastIndexByte(l.Tok[1], ':')+1:]
+				onlyPort = port
+				for i, w := range l.Tok {
+					if w == "id" && i+1 < len(l.Tok) {
+						idToPort[l.Tok[i+1]] = port
+					}
+				}
+			}
+		}
+		for _, l := range fs.Lines {
+			if l.Tok[0] == "use_backend" && len(l.Tok) > 1 {
+				port := onlyPort
+				for i, w := range l.Tok {
+					if w == "so_id" && i+1 < len(l.Tok) {
+						port = idToPort[l.Tok[i+1]]
+					}
+				}
+				authName["_auth_"+port] = "_auth{" + l.Tok[1] + "}"
+			}
+		}
+	}
+	for _, s := range c.Sections {
+		id := s.ID()
+		if c.ByID[id] != s {
+			if s.Kind == "global" || s.Kind == "defaults" {
+				continue // repeated verbatim in shard files
+			}
+			id = id + " (duplicate)"
+		}
+		if an, ok := authName[s.Name]; ok && s.Kind == "backend" {
+			id = "backend " + an
+		}
+		pathKeys := map[string]string{}
+		if s.Kind == "backend" || s.Kind == "listen" {
+			pathKeys = c.pathIDKeys(s)
+		}
+		srvAddr := map[string]string{}
+		if be := c.Backends[s.Name]; be != nil && be.Section == s {
+			for _, sv := range be.Servers {
+				srvAddr[sv.Name] = fmt.Sprintf("%s:%d", sv.Addr, sv.Port)
+			}
+		}
+		var lines []string
+		var servers []string
+		isAuthFront := s == c.authProxyFrontend()
+		preserve := false
+		for _, l := range s.Lines {
+			if l.Tok[0] == "cookie" {
+				for _, w := range l.Tok {
+					if w == "preserve" {
+						preserve = true
+					}
+				}
+			}
+		}
+		for _, l := range s.Lines {
+			t := l.Tok
+			switch {
+			case (t[0] == "server" || t[0] == "server-template") && len(t) >= 3:
+				sv := parseServer(t)
+				if opt != nil && opt.Servers != nil {
+					if st := opt.Servers[s.Name][sv.Name]; st != nil {
+						sv.Addr, sv.Port, sv.Weight = st.Addr, st.Port, st.Weight
+						sv.Disabled = st.Maint
+						if st.Drain {
+							sv.Weight = 0
+						}
+					}
+				}
+				if sv.IsEmptySlot() || (sv.Disabled && opt != nil && opt.RuntimeView) {
+					continue
+				}
+				cookie := sv.Cookie
+				if cookie == sv.Name || (opt != nil && opt.RuntimeView && !preserve) {
+					cookie = ""
+				}
+				name := ""
+				if s.Kind != "backend" || strings.HasPrefix(s.Name, "_") || sv.Template {
+					name = sv.Name // support backends: names are fixed labels
+					if an, ok := authName[name]; ok {
+						name = an
+					}
+				}
+				addr := fmt.Sprintf("%s:%d", sv.Addr, sv.Port)
+				if sv.Port == 0 {
+					addr = c.strip(sv.Addr)
+				}
+				if _, isAuth := authName[s.Name]; isAuth {
+					addr = "127.0.0.1:<authport>"
+				}
+				line := fmt.Sprintf("server %s %s", name, addr)
+				if sv.Disabled {
+					line += " disabled"
+				}
+				line += fmt.Sprintf(" weight %d", sv.Weight)
+				if cookie != "" {
+					line += " cookie " + cookie
+				}
+				if sv.ID != "" {
+					line += " id " + sv.ID
+				}
+				line += " " + c.normTokens(s, sv.Rest, pathKeys, authName, opt)
+				servers = append(servers, strings.TrimSpace(line))
+			case t[0] == "use-server" && len(t) > 1:
+				rest := c.normTokens(s, t[2:], pathKeys, authName, opt)
+				lines = append(lines, "use-server "+srvAddr[t[1]]+" "+rest)
+			case isAuthFront && t[0] == "bind":
+				lines = append(lines, "bind 127.0.0.1:<authport>")
+			case isAuthFront && t[0] == "use_backend":
+				lines = append(lines, "use_backend "+t[1]+" if <its auth port>")
+			default:
+				lines = append(lines, c.normTokens(s, t, pathKeys, authName, opt))
+			}
+		}
+		if isAuthFront {
+			sort.Strings(lines)
+		}
+		sort.Strings(servers)
+		nf[id] = append(lines, servers...)
+	}
+	return nf
+}
+
+func (c *HAConfig) binID(path string) string {
+	if strings.HasSuffix(path, "/ca__fake-default.pem") {
+		// every controller instance generates its own fake CA
+		return "bin:fake-ca"
+	}
+	return "bin:" + c.BinFiles[path]
+}
+
+func (c *HAConfig) authProxyFrontend() *HASection {
+	return c.ByID["frontend _front__auth"]
+}
+
+var reMapArg = regexp.MustCompile(`(map(?:_[a-z]+)?)\(([^,)]+)([,)])`)
+
+func (c *HAConfig) inlineFile(path string, pathKeys map[string]string) string {
+	lines, ok := c.Files[path]
+	if !ok {
+		return "<<missing file>>"
+	}
+	out := make([]string, len(lines))
+	for i, l := range lines {
+		f := strings.Fields(l)
+		for j, w := range f {
+			if j > 0 && rePathID.MatchString(w) {
+				if k, ok := pathKeys[w]; ok {
+					f[j] = k
+				}
+			}
+		}
+		out[i] = c.strip(strings.Join(f, " "))
+	}
+	return "<<" + strings.Join(out, " ; ") + ">>"
+}
+
+func (c *HAConfig) normTokens(s *HASection, t []string, pathKeys map[string]string, authName map[string]string, opt *NFOptions) string {
+	out := make([]string, 0, len(t))
+	for i := 0; i < len(t); i++ {
+		w := t[i]
+		switch {
+		case rePathID.MatchString(w):
+			// a run of path ids: replace and sort
+			j := i
+			var ids []string
+			for j < len(t) && rePathID.MatchString(t[j]) {
+				k, ok := pathKeys[t[j]]
+				if !ok {
+					k = "<unknown " + t[j] + ">"
+				}
+				ids = append(ids, k)
+				j++
+			}
+			sort.Strings(ids)
+			out = append(out, ids...)
+			i = j - 1
+			continue
+		case w == "crt-list" && i+1 < len(t):
+			out = append(out, "crt-list", c.inlineCrtList(t[i+1], opt))
+			i++
+			continue
+		case (w == "crt") && i+1 < len(t) && strings.HasPrefix(t[i+1], "/"):
+			out = append(out, "crt", c.certID(t[i+1], opt))
+			i++
+			continue
+		case (w == "ca-file" || w == "crl-file") && i+1 < len(t):
+			out = append(out, w, c.binID(t[i+1]))
+			i++
+			continue
+		case w == "-f" && i+1 < len(t) && strings.HasPrefix(t[i+1], "/"):
+			out = append(out, "-f", c.inlineFile(t[i+1], pathKeys))
+			i++
+			continue
+		}
+		if strings.Contains(w, "map") && reMapArg.MatchString(w) {
+			w = reMapArg.ReplaceAllStringFunc(w, func(m string) string {
+				sm := reMapArg.FindStringSubmatch(m)
+				return sm[1] + "(" + c.inlineFile(sm[2], pathKeys) + sm[3]
+			})
+		}
+		if strings.Contains(w, "_auth_") {
+			w = reAuthName.ReplaceAllStringFunc(w, func(m string) string {
+				if an, ok := authName[m]; ok {
+					return an
+				}
+				return m
+			})
+		}
+		out = append(out, c.strip(w))
+	}
+	return strings.Join(out, " ")
+}
+
+func (c *HAConfig) inlineCrtList(path string, opt *NFOptions) string {
+	lines, ok := c.Files[path]
+	if !ok {
+		return "<<missing crt-list>>"
+	}
+	var out []string
+	for i, l := range lines {
+		f := strings.Fields(l)
+		f[0] = c.certID(f[0], opt)
+		for j, w := range f {
+			w = strings.TrimPrefix(w, "[")
+			if (w == "ca-file" || w == "crl-file") && j+1 < len(f) {
+				p := strings.TrimSuffix(f[j+1], "]")
+				suffix := f[j+1][len(p):]
+				f[j+1] = c.binID(p) + suffix
+			}
+		}
+		e := strings.Join(f, " ")
+		if i == 0 {
+			e = "default " + e
+		}
+		out = append(out, e)
+	}
+	// the first line is the default certificate; the others are looked up by
+	// SNI filter, so their order is irrelevant
+	if len(out) > 1 {
+		sort.Strings(out[1:])
+	}
+	return "<<" + strings.Join(out, " ; ") + ">>"
+}
+
+// DiffNF returns a description of the first difference, or "".
+func DiffNF(a, b NF, an, bn string) string {
+	ids := map[string]bool{}
+	for id := range a {
+		ids[id] = true
+	}
+	for id := range b {
+		ids[id] = true
+	}
+	for _, id := range sortedKeys(ids) {
+		la, oka := a[id]
+		lb, okb := b[id]
+		if !oka {
+			return fmt.Sprintf("section '%s' only in %s", id, bn)
+		}
+		if !okb {
+			return fmt.Sprintf("section '%s' only in %s", id, an)
+		}
+		n := len(la)
+		if len(lb) > n {
+			n = len(lb)
+		}
+		for i := 0; i < n; i++ {
+			var x, y string
+			if i < len(la) {
+				x = la[i]
+			}
+			if i < len(lb) {
+				y = lb[i]
+			}
+			if x != y {
+				return fmt.Sprintf("section '%s' line %d:\n   %s: %s\n   %s: %s", id, i+1, an, clip(x), bn, clip(y))
+			}
+		}
+	}
+	return ""
+}
+
+func clip(s string) string {
+	if len(s) > 600 {
+		return s[:600] + "…"
+	}
+	if s == "" {
+		return "<absent>"
+	}
+	return s
+}
+
+// Hash returns a short hash of the normal form (distinct-state measure).
+func (n NF) Hash() string {
+	h := sha1.New()
+	for _, id := range sortedKeys(n) {
+		h.Write([]byte(id))
+		h.Write([]byte{0})
+		for _, l := range n[id] {
+			h.Write([]byte(l))
+			h.Write([]byte{1})
+		}
+	}
+	return hex.EncodeToString(h.Sum(nil)[:8])
 }
